@@ -75,7 +75,7 @@ Fixpoint wild_source (z : fzone) (p : path) : option (label * path) :=
   end.
 
 Definition closest_encloser (z : fzone) (p e : path) : Prop :=
-  is_suffix e p /\ exists_node z e /\ forall e', is_suffix e' p -> exists_node z e' -> is_suffix e e'.
+  is_suffix e p /\ exists_node z e /\ forall e', is_suffix e' p -> exists_node z e' -> is_suffix e' e.
 
 (* The lookup.  [apexl] = labels of the apex, [name] = the query name, [p] = its
    relative path.
